@@ -49,8 +49,67 @@ MUTATIONS = [
      "WaitableOperation::cancel does not unregister the waker before cancelling"),
     ("c21_m7_lift_on_cancel", "C21", AS + "subtask.rs",
      "            STATUS_RETURNED_CANCELLED => {\n                if !state.started {\n                    state.flag_started(self.0);\n                }\n                Ok(Err(()))\n",
-     "            STATUS_RETURNED_CANCELLED => {\n                if !state.started {\n                    state.flag_started(self.0);\n                }\n                let ptr = state.ptr_results(self.0);\n                unsafe { drop(self.0.results_lift(ptr)); }\n                Ok(Err(()))\n",
-     "results lifted although the call was cancelled"),
+     "            STATUS_RETURNED_CANCELLED => {\n                if !state.started {\n                    state.flag_started(self.0);\n                }\n                let ptr = state.ptr_results(self.0);\n                unsafe { core::mem::drop(self.0.results_lift(ptr)); }\n                Ok(Err(()))\n",
+     "results lifted although the call was cancelled", "c21_(ind_pd|flat_pd)$"),
+    # ---- C24
+    ("c24_m1_zero_size_returns_null", "C24", RT + "mod.rs", "                return align as *mut u8;\n", "                return core::ptr::null_mut();\n",
+     "cabi_realloc returns null for a zero-sized request"),
+    ("c24_m2_alloc_wrong_align", "C24", RT + "mod.rs", "            layout = Layout::from_size_align_unchecked(new_len, align);\n",
+     "            layout = Layout::from_size_align_unchecked(new_len, 1);\n", "cabi_realloc allocates with alignment 1"),
+    ("c24_m3_realloc_wrong_old_layout", "C24", RT + "mod.rs", "            layout = Layout::from_size_align_unchecked(old_len, align);\n",
+     "            layout = Layout::from_size_align_unchecked(new_len, align);\n", "cabi_realloc describes the old block with the new size"),
+    ("c24_m4_cleanup_zero_size_allocates", "C24", RT + "mod.rs", "        if layout.size() == 0 {\n            return (ptr::null_mut(), None);\n        }\n", "",
+     "Cleanup::new allocates for a zero-sized layout"),
+    ("c24_m5_cleanup_double_free", "C24", RT + "mod.rs", "            alloc::alloc::dealloc(self.ptr.as_ptr(), self.layout);\n",
+     "            alloc::alloc::dealloc(self.ptr.as_ptr(), self.layout);\n            alloc::alloc::dealloc(self.ptr.as_ptr(), self.layout);\n",
+     "Cleanup::drop frees twice"),
+    ("c24_m6_cabi_dealloc_frees_zero_size", "C24", "crates/rust/src/lib.rs", "    if size == 0 {\n        return;\n    }\n    unsafe {\n        let layout = alloc::Layout",
+     "    unsafe {\n        let layout = alloc::Layout", "generated cabi_dealloc frees the dangling zero-size pointer"),
+    # ---- C18
+    ("c18_m1_cancel_without_unregister", "C18", AS + "waitable.rs",
+     "                self.as_mut().unregister_waker(waitable);\n", "                let _ = waitable;\n",
+     "WaitableOperation::cancel does not unregister the waker before cancelling", "c18_one_(pd|pc|ppd)$"),
+    ("c18_m2_task_move_keeps_old_registration", "C18", AS + "waitable.rs",
+     "                last_task.registered = Some(waitable);\n", "                let _ = &last_task;\n",
+     "v2: the stored task no longer remembers the registration, so moving to another task does not unregister from the first", "c18_two_v2v2_(pa_pb_d|pa_pb_da)$"),
+    ("c18_m3_clone_never_dropped", "C18", AS + "waitable.rs",
+     "            (self.vtable.drop)(self.ptr);\n", "            let _ = self.ptr;\n",
+     "CabiTask::drop never releases the task clone", "c18_one_(pd|ppd)$"),
+    ("c18_m4_cancel_ignores_queued_code", "C18", AS + "waitable.rs",
+     "        match completion_status.as_mut().code_mut().take() {\n", "        match completion_status.as_mut().code_mut().take().and(None::<u32>) {\n",
+     "cancel() throws away a completion code that is already queued", "c18_one_(ped|pec)$"),
+    # ---- C20
+    ("c20_m1_no_default_on_drop", "C20", AS + "future_support.rs",
+     "        if self.should_write_default_value {\n            let raw = unsafe { ManuallyDrop::take(&mut self.raw) };\n            let value = (self.default)();", "        if false {\n            let raw = unsafe { ManuallyDrop::take(&mut self.raw) };\n            let value = (self.default)();",
+     "FutureWriter::drop never writes the default value", "c20_typed_(writer_dropped_unwritten|write_dropped_unpolled)$"),
+    ("c20_m2_no_dealloc_after_write", "C20", AS + "future_support.rs",
+     "                    writer.ops.dealloc_lists(ptr);\n", "                    let _ = ptr;\n",
+     "completed future write never releases the lists of the written value", "c20_rawwrite_(pc|pep)$"),
+    ("c20_m3_dropped_cancelled_swapped", "C20", AS + "future_support.rs",
+     "                let status = if code == super::DROPPED {\n", "                let status = if code != super::DROPPED {\n",
+     "future write reports 'reader dropped' for 'cancelled' and vice versa", "c20_(rawwrite_pc|typed_cancel)$"),
+    ("c20_m4_read_cancel_arms_swapped", "C20", AS + "future_support.rs",
+     "            ReturnCode::Cancelled(0) => Ok((ReadComplete::Cancelled, reader)),\n", "            ReturnCode::Completed(0) if false => unreachable!(),\n            ReturnCode::Cancelled(0) | ReturnCode::Completed(0) => Ok((ReadComplete::Cancelled, reader)),\n",
+     "future read treats a completed read as cancelled (value never lifted)", "c20_read_(pd|pc|pepd)$"),
+    # ---- C19
+    ("c19_m1_advance_wrong_amount", "C19", AS + "stream_support.rs",
+     "                let amt = amt.try_into().unwrap();\n                buf.advance(amt);\n", "                let amt: usize = amt.try_into().unwrap();\n                buf.advance(amt.saturating_sub(1));\n",
+     "stream write advances its buffer by one item less than the host transferred", "c19_write_u8_(pc|pep)$"),
+    ("c19_m2_ptr_ignores_cursor", "C19", AS + "abi_buffer.rs",
+     "            let ptr = unsafe { self.rust_storage.as_ptr().add(self.cursor).cast() };\n", "            let ptr = unsafe { self.rust_storage.as_ptr().add(0).cast() };\n",
+     "AbiBuffer::abi_ptr_and_len ignores the cursor (items would be sent again)", "c19_abibuf_u8_len3$"),
+    ("c19_m3_into_vec_keeps_sent_items", "C19", AS + "abi_buffer.rs",
+     "        storage.drain(..self.cursor);\n", "        storage.drain(..0);\n",
+     "AbiBuffer::into_vec hands back items that were already transferred", "c19_(abibuf_u8_len3|write_u8_pc)$"),
+    ("c19_m4_read_short_len", "C19", AS + "stream_support.rs",
+     "                        buf.set_len(cur_len + amt);\n", "                        buf.set_len(cur_len + amt.min(1));\n",
+     "stream read reports the host's count but exposes at most one item", "c19_read_u8_(pc|pep)$"),
+    ("c19_m5_decode_dropped_as_completed", "C19", RT + "async_support.rs",
+     "            DROPPED => ReturnCode::Dropped(amt),\n", "            DROPPED => ReturnCode::Completed(amt),\n",
+     "ReturnCode::decode maps DROPPED to Completed", "c19_(return_code_valid|write_u8_pc)$"),
+    ("c19_m6_lifted_double_dealloc", "C19", AS + "abi_buffer.rs",
+     "                self.ops.dealloc_lists(ptr.cast_mut());\n", "                self.ops.dealloc_lists(ptr.cast_mut());\n                self.ops.dealloc_lists(ptr.cast_mut());\n",
+     "AbiBuffer::advance releases the lists of a transferred item twice", "c19_abibuf_val_len(1|3)$"),
 ]
 
 
@@ -67,7 +126,9 @@ def main():
     if not os.path.isdir(WT):
         sys.exit("worktree %s missing: git -C /repo worktree add --detach %s HEAD" % (WT, WT))
     results = []
-    for mid, prop, file, old, new, what in MUTATIONS:
+    for mut in MUTATIONS:
+        mid, prop, file, old, new, what = mut[:6]
+        only_h = mut[6] if len(mut) > 6 else None
         if not re.search(a.only, mid):
             continue
         sh(["git", "-C", WT, "checkout", "--", "."])
@@ -78,8 +139,8 @@ def main():
             continue
         open(path, "w").write(src.replace(old, new))
         env = dict(os.environ, VERIF_REPO=WT, VERIF_EVIDENCE_DIR="/verif/work/mut_evidence", VERIF_TIER=a.tier)
-        if a.harness:
-            env["VERIF_RTKANI_ONLY"] = a.harness
+        if a.harness or only_h:
+            env["VERIF_RTKANI_ONLY"] = a.harness or only_h
         t0 = time.time()
         r = sh(["/verif/check", prop], env=env)
         dt = time.time() - t0
